@@ -526,7 +526,7 @@ pub static C13: CliProp = CliProp {
     quick_cases: 16_000,
     thorough_cases: 300_000,
     tape_len: 200,
-    assumptions: &["'unreadable' is simulated by invalid UTF-8 (the sandbox runs as root, file modes are not enforced)", "arguments never spell the same file in two different ways (known finding KF-C16-path-spelling)"],
+    assumptions: &["'unreadable' is simulated by invalid UTF-8 (the sandbox runs as root, file modes are not enforced)", "arguments never spell the same file in two different ways (C16 covers that case)"],
     extra: None,
     exclude: None,
 };
@@ -925,7 +925,7 @@ fn c18_oracle(case: &CliCase, run: &CliRun) -> Verdict {
 
 pub static C18: CliProp = CliProp {
     id: "C18",
-    rule: "E3: one file per case, (original, formatted) pairs arising from programs: hand-messy and grammar-generated programs, text formatted under another configuration (many separated hunks), already formatted text, unsorted requires with --sort-requires (pure moves), runs of blank lines (pure deletions), a change on the first / last line, CRLF input, no final newline; random format flags; --check with unified / json / standard / summary output. Oracle: the checker's own unified-diff applier (hunks, context verification, `\\ No newline at end of file`) applied to the original gives exactly the library's formatted text; the JSON mismatches applied bottom-up as line-range replacements (`original == \"\"` = insertion before original_start_line; `original` must equal the replaced lines) give the same; summary lists the file iff it differs; for every format a diff is printed iff the file differs, and the exit status agrees. Non-trivial: the file differs from its formatted text.",
+    rule: "E3: one file per case, (original, formatted) pairs arising from programs: hand-messy and grammar-generated programs, text formatted under another configuration (many separated hunks), already formatted text, unsorted requires with --sort-requires at the start and at the end of the file (pure moves, insertions behind the last line), runs of blank lines (pure deletions), a change on the first / last line, CRLF input, no final newline; random format flags; --check with unified / json / standard / summary output, the text given as a file or piped through stdin (`-`, reported as `stdin`). Oracle: the checker's own unified-diff applier (hunks, context verification, `\\ No newline at end of file`) applied to the original gives exactly the library's formatted text; the JSON mismatches applied bottom-up as line-range replacements (`original == \"\"` = insertion before original_start_line; `original` must equal the replaced lines) give the same; summary lists the file iff it differs; for every format a diff is printed iff the file differs, and the exit status agrees. Non-trivial: the file differs from its formatted text.",
     gen_case: gen_c18,
     oracle: c18_oracle,
     quick_cases: 16_000,
@@ -1466,8 +1466,26 @@ fn gen_c16(t: &mut Tape, labels: &mut Vec<&'static str>) -> Option<CliCase> {
         }
         _ => {}
     }
+    // the same file under two spellings: `./name` for an explicit file, `.` next to other arguments (every file must
+    // still be processed once)
+    let mut spelled = false;
+    if !use_globs && !respect && t.chance(60) {
+        for f in files.iter_mut() {
+            if f != "." && t.chance(128) {
+                *f = format!("./{f}");
+                spelled = true;
+            }
+        }
+        if !files.iter().any(|f| f == ".") && t.chance(128) {
+            files.push(".".into());
+            spelled = true;
+        }
+        if spelled {
+            labels.push("args:two-spellings");
+        }
+    }
     // now and then the tool runs from `sub`: ignore files above the working directory still apply
-    if t.chance(50) && present.iter().any(|p| p.starts_with("sub/")) {
+    if !spelled && t.chance(50) && present.iter().any(|p| p.starts_with("sub/")) {
         case.cwd = "sub".into();
         let mut inner: Vec<String> = Vec::new();
         for f in &files {
@@ -1477,7 +1495,6 @@ fn gen_c16(t: &mut Tape, labels: &mut Vec<&'static str>) -> Option<CliCase> {
                 inner.push(r.to_string());
             }
         }
-        // `.` next to another argument would spell the same files in two ways (KF-C16-path-spelling)
         if inner.is_empty() || inner.iter().any(|f| f == ".") {
             inner = vec![".".into()];
         }
@@ -1559,7 +1576,7 @@ fn c16_oracle(case: &CliCase, run: &CliRun) -> Verdict {
 
 pub static C16: CliProp = CliProp {
     id: "C16",
-    rule: "E3: trees drawn from 18 candidate paths (.lua, .luau, .txt, hidden files and directories, nested directories), every candidate unformatted so that 'changed' = 'processed'; `.styluaignore` at the working directory and nested, with the pattern forms name, dir/, /anchored, dir/name, *.ext, **/name, !negation, comments; arguments `.`, directories, explicit files, overlaps, repeats; --glob lists (plain, multiple, nested, negated), --respect-ignores, --allow-hidden, --num-threads; write mode or --check --output-format summary. Model (README + gitignore semantics for the stated pattern subset): directory traversal selects files matching the globs (default *.lua / *.luau) that are not hidden (unless --allow-hidden) and not excluded by the ignore files of any ancestor directory (deeper files first; an excluded directory is not entered); an explicitly named file is selected unless --respect-ignores excludes it; every selected file is processed exactly once (summary lists it once / its bytes become the library's output); every other file keeps its bytes; exit status 2 only for a missing argument. Non-trivial: some but not all candidates are selected.",
+    rule: "E3: trees drawn from 18 candidate paths (.lua, .luau, .txt, hidden files and directories, nested directories), every candidate unformatted so that 'changed' = 'processed'; `.styluaignore` at the working directory, nested below it and (tool started in `sub`) above it, with the pattern forms name, dir/, /anchored, dir/name, *.ext, **/name, !negation, comments; arguments `.`, directories, explicit files, overlaps, repeats; --glob lists (plain, multiple, nested, negated), --respect-ignores, --allow-hidden, --num-threads; write mode or --check --output-format summary. Model (README + gitignore semantics for the stated pattern subset): directory traversal selects files matching the globs (default *.lua / *.luau) that are not hidden (unless --allow-hidden) and not excluded by the ignore files of any ancestor directory (deeper files first; an excluded directory is not entered); an explicitly named file is selected unless --respect-ignores excludes it; every selected file is processed exactly once (summary lists it once / its bytes become the library's output); every other file keeps its bytes; exit status 2 only for a missing argument. Non-trivial: some but not all candidates are selected.",
     gen_case: gen_c16,
     oracle: c16_oracle,
     quick_cases: 16_000,
@@ -1568,7 +1585,6 @@ pub static C16: CliProp = CliProp {
     assumptions: &[
         "no .gitignore / .ignore files in the tree; no ignored directory is passed explicitly",
         "with --glob the tree has no hidden entries and no ignore files (known finding KF-C16-glob-overrides-filters: a whitelisting glob overrides both filters)",
-        "arguments never spell the same file in two ways (known finding KF-C16-path-spelling)",
         "explicit files are not combined with custom globs plus --respect-ignores (the README does not define that case)",
     ],
     extra: None,
